@@ -6,6 +6,7 @@ R3 dictionary look-ups are guarded / tables agree, R4 rejection paths raise
 ValueError, R5 classification survives truncation.
 """
 import ast
+import hashlib
 
 from sa import callgraph
 from sa.astutil import (anorm, call_name, calls_in, dotted, norm, walk_no_nested, last_attr,
@@ -304,9 +305,17 @@ def run(ctx):
                 continue
             n_ops += 1
             key = '%s.%s:%s' % (fid[0], fid[1], anorm(node, fn)[:80])
-            if why is None and key in tri:
-                ctx.triage('c12_partial_ops', key)
-                why = 'lemma: ' + tri[key]
+            # a lemma entry is tied to the construct *and* the conditions it sits under
+            fcan = canon(fn)
+            under = sorted(('' if p else 'not ') + fcan.text(e) for e, p in facts_at(node, fn))
+            tkey = '%s.%s:%s | under: %s' % (fid[0], fid[1], fcan.text(node, define=True), ' & '.join(under))
+            if len(tkey) > 330:
+                tkey = tkey[:320] + '~' + hashlib.sha1(tkey.encode()).hexdigest()[:8]
+            if why is None and tkey in tri:
+                ctx.triage('c12_partial_ops', tkey)
+                why = 'lemma: ' + tri[tkey]
+            elif why is None:
+                ctx.note('untriaged:' + key, tkey)
             ctx.ob('C12.R1', 'partial-op:' + key, why is not None,
                    '%s on structure-derived data in %s.%s is guarded on the same expression or '
                    'covered by a checked lemma (%s)' % (
@@ -384,7 +393,7 @@ def run(ctx):
                                 for x in (s_.value.left, s_.value.right)):
                         ok = True
             if not ok:
-                key = '%s.%s:%s' % (fid[0], fid[1], anorm(c, fn)[:80])
+                key = '%s.%s:%s' % (fid[0], fid[1], canon(fn).text(c, define=True))
                 r = tri.get(key)
                 if r is not None:
                     ctx.triage('c12_partial_ops', key)
